@@ -13,42 +13,60 @@ SOURCES = ["src/allmydata/web/root.py", "src/allmydata/web/directory.py", "src/a
            "src/allmydata/web/common.py", "src/allmydata/web/info.py", "src/allmydata/dirnode.py",
            "src/allmydata/mutable/filenode.py", "src/allmydata/nodemaker.py"]
 DESIGN_REF = "DESIGN.md §2 C41"
-TECHNIQUE = ("Lean 4 model of the node layer's read-only guards (dirnode.py / mutable/filenode.py, in the position the code has "
-             "them) plus a dispatch table of the web layer (getChild traversal incl. intermediate-directory creation, render_PUT/"
-             "POST/DELETE of directory, file, placeholder and unknown handlers); theorems by invariant over the traversal; "
-             "correspondence by rendering real requests (real TahoeLAFSSite + Root resource tree on an in-process grid client, "
-             "HTTP bytes fed to the channel, no sockets) against mixed-authority trees and comparing status class, error phase and "
-             "the resulting directory tree with the table; monitor = storage-server snapshot before/after + write-key scan of responses")
-LEVEL_TEXT = ("PARTIAL. Proved for the model: every request of the dispatch table made with a cap that carries no write key, or "
-              "whose path passes through a node reached read-only, or (POST forms, which act on the addressed node itself, incl. "
-              "t=relink with any to_dir=) whose addressed directory / mutable file is reached read-only, leaves the grid unchanged "
-              "and is refused (except the mkdir forms "
-              "answered with the URI of an already existing directory), for every grid, path and request; every cap string in "
-              "t=json / t=info / HTML listing / t=uri output for a node reached read-only is a read or verify cap; the node the "
-              "gateway's node cache hands out for a cap has exactly that cap's authority, for every history of lookups and collections "
-              "(tied by a function-level comparison of create_node_from_uri histories). The web layer "
-              "(3 500 lines) is NOT modelled beyond this table: the table was written by reading web/*.py and is tied to it only by "
-              "the correspondence run (status, phase, resulting tree for random requests through read-only and writeable paths). "
-              "The theorems are about the table with the proposed repair fixes/C41-mutable-upload-readonly-parent.diff; for the "
-              "code as it is the statement is false (theorem asis_mutable_upload_counterexample, reproduced by the monitor).")
-LEVEL_NOTE = ("Lean kernel + standard axioms for the table and node-layer model; hand-written table; deep-check / manifest / "
-              "check-and-repair operations, when_done redirects, metadata (no-write), /uri unlinked creation, the private token "
-              "area and HTML form details are outside the model (check&repair through read caps is only monitored).")
-RULE = ("a fixed corpus first (fixed tree, one request per known mechanism: repaired defect 9a727df, seeded changes C41-a/b/c, "
-        "through a read cap / below a read-only link / with the read-only link as last path element, plus the same shapes with "
-        "full authority; VERIF_CORPUS_ONLY=1 runs only this); then seeded scenarios: one grid + real web resource tree, a random mixed-authority tree (mutable dirs linked by write and by read "
-        "cap, immutable dir, CHK/LIT files, SDMF/MDMF files by write and read cap, verify caps) and a stream of random requests "
-        "(PUT/POST t=…/DELETE with every t of the table, replace=true/false/only-files, format=sdmf, paths of length 0..4 with "
-        "existing and missing names) addressed through read-only/verify caps, through paths crossing a read-only link, and through "
-        "write caps; a focused stream of t=relink / t=rename out of directories addressed without write authority (read cap, "
-        "read-only last link, below a read-only link) with to_dir= naming a different writeable directory by cap and by cap/path "
-        "and from_name naming file / directory / mutable-file children; after every such request the whole logical grid (every "
-        "directory of the tree incl. those named in parameters, every mutable file's contents) and every share file is compared "
-        "with its state before, whatever the status code; plus GETs (t=json/info/uri/readonly-uri/HTML). A case is one request; distinct = distinct (authority class, "
-        "method, t, outcome class, target shape); non-trivial = every modifying request and every GET through a read-only path.")
+TECHNIQUE = ("Lean 4 model of (1) the node layer's read-only guards (dirnode.py / mutable/filenode.py, in the position the code has "
+             "them), (2) the directory read path (stored entries, _pack_normalized_children / _unpack_contents under the authority of "
+             "the view), (3) NodeMaker.create_from_cap with its node cache, and (4) a dispatch table of the web layer (getChild "
+             "traversal incl. intermediate-directory creation, render_PUT/POST/DELETE of directory, file, placeholder and unknown "
+             "handlers, cap strings shown by the t=json / t=info / HTML / t=uri renderers and by error pages); theorems by invariants "
+             "over the traversal, over cache histories and over stored contents; correspondence by rendering real requests (real "
+             "TahoeLAFSSite + Root resource tree on an in-process grid client, HTTP bytes fed to the channel, no sockets) against "
+             "mixed-authority trees and comparing status class, error phase, resulting directory tree and cap strings in the body with "
+             "the table, plus function-level comparison of _unpack_contents and of create_node_from_uri histories; monitor = whole "
+             "logical grid + storage-server share snapshot before/after every request made with read-only authority, write-key scan of "
+             "every response")
+LEVEL_TEXT = ("PARTIAL (the web layer is modelled only as a dispatch table). Proved for the model, for every grid, path and request "
+              "of the table: a request made with a cap that carries no write key (readonly_cap_unchanged, readonly_cap_refused), or "
+              "whose path passes through a node reached read-only (readonly_refused_unchanged), or whose addressed directory / mutable "
+              "file is itself reached read-only for the POST forms that act on it, incl. t=relink with any to_dir= "
+              "(readonly_target_refused_unchanged), leaves the grid unchanged and is refused (exception: the mkdir forms answered with "
+              "the URI of an already existing directory); every modifying node method refuses a read-only node before any effect "
+              "(node_methods_refuse_readonly, move_child_to_needs_both_write_keys, mutable_format_upload_refused); what a read-only "
+              "view of a directory unpacks carries no write cap, for any stored contents, and the table's listings are exactly that "
+              "unpack (readonly_view_unpacks_no_writecap, packed_entry_ro_slot_and_roundtrip, listing_is_unpack_of_stored_entries); "
+              "the node the gateway hands out for a cap has that cap's authority for every history of lookups and collections "
+              "(node_cache_preserves_authority, node_cache_history, readcap_never_yields_writeable_node); every cap string in t=json / "
+              "t=info / HTML listing / t=uri / t=readonly-uri output for a node reached read-only is a read or verify cap "
+              "(no_writecap_in_ro_response, no_writecap_below_ro) and the body of a refused request shows only cap strings of its own "
+              "URL (refused_response_shows_only_request_caps). Counterexample theorems show what each repaired or seeded change broke "
+              "(asis_mutable_upload_counterexample and asis_existing_child_counterexample for the defect repaired in /repo by 9a727df, "
+              "or_guard_counterexample, aliased_cache_counterexample, authority_blind_cache_counterexample). The table was written by "
+              "reading web/*.py and is tied to it only by the correspondence run. Not covered: deep-check / manifest / check-and-repair "
+              "operations (check&repair through a read cap is monitored only), when_done redirects, no-write metadata, /uri unlinked "
+              "creation, the private token area.")
+LEVEL_NOTE = ("Lean kernel + standard axioms (22 theorems, no _partial); hand-written table and node-layer model; the orphaned-mutable-"
+              "file defect found by this check is fixed in /repo (9a727df), so the table is that of the code as it is now "
+              "(C41_MODEL_MODE=asis selects the table of the code before the fix).")
+RULE = ("a fixed corpus first, independent of the seed (fixed tree, one request per known mechanism: repaired defect 9a727df, seeded "
+        "changes C41-a/b/c/d/e, each through a read cap / below a read-only link / with the read-only link as last path element, "
+        "GETs through read caps while nodes built from the write caps are alive, plus the same shapes with full authority; "
+        "VERIF_CORPUS_ONLY=1 runs only this); then seeded scenarios: one grid + real web resource tree, a random mixed-authority "
+        "tree (mutable dirs linked by write and by read cap, immutable dir, CHK/LIT files, SDMF/MDMF files by write and read cap, "
+        "verify caps) and a stream of random requests (PUT/POST t=…/DELETE with every t of the table, replace=true/false/only-files, "
+        "format=sdmf/mdmf, paths of length 0..4 with existing and missing names) in four authority classes (read-only/verify root "
+        "cap, path below a read-only link, read-only link as last element, full authority); a focused stream of t=relink / t=rename "
+        "out of directories addressed without write authority with to_dir= naming a different writeable directory by cap and by "
+        "cap/path; after every request made with read-only authority the whole logical grid (every directory incl. those named in "
+        "parameters, every mutable file's contents) and every share file is compared with its state before, whatever the status "
+        "code; GETs (t=json/info/uri/readonly-uri/HTML); per scenario _unpack_contents of every directory by a writeable and a "
+        "read-only node, three create_node_from_uri histories, check&repair through a read cap of a damaged mutable file. A case is "
+        "one request or probe; distinct = distinct (authority class, method, t, outcome class, target shape); non-trivial = every "
+        "modifying request and every GET / probe through a read-only path.")
 TRUSTED = ["harness/grid.py (in-process grid, virtual clock)", "the HTTP feeding shim in harness/props/c41.py (StringTransport in, raw bytes out)",
-           "the tree mirror read back through the strongest caps the harness holds"]
-ASSUMPTIONS = ["a cap string reveals write authority only through its write key (the scan looks for the base32 write key of every "
+           "the tree mirror read back through the strongest caps the harness holds",
+           "lean/Drv/C41.lean parsers"]
+ASSUMPTIONS = ["the web layer does what the dispatch table says (correspondence only: status class, error phase, resulting tree, cap "
+               "strings in refused bodies, for the generated requests)",
+               "a cap string reveals write authority only through its write key (the scan looks for the base32 write key of every "
                "mutable object of the tree in any quoting)",
                "share data read through the container readers (ShareFile / MutableShareFile) is the grid state; lease timestamps ignored"]
 
@@ -1170,7 +1188,7 @@ def run(ctx):
                 ctx.disagree("web request: status class and resulting directory tree", dict(case, model_out=out.split(" ")[0]), im, want)
     if all_cases:
         ctx.sample({k: v for k, v in all_cases[0].items() if k != "line"})
-    ctx.note("model table = %s" % ("with proposed repair (fixed)" if fixed_model else "code as it is (asis)"))
+    ctx.note("model table = %s" % ("code as it is now, with the repair 9a727df" if fixed_model else "code before the repair 9a727df (asis)"))
 
 
 def replay(ctx, replay_obj):
